@@ -25,6 +25,7 @@ type ProgGen struct {
 	// knobs
 	PrintPct  int  // chance of a print before each term (default 9)
 	forceExplicit bool
+	FwdPol        bool // every forward carries the polarity of the forwarded channel (needed to run a program unchecked)
 	HeavyPol      bool // explicit polarities on about a third of the names instead of a few
 	wantExplicit  bool
 	UniformNames  bool // with LocalNames: one stem for all binders
@@ -142,6 +143,15 @@ func (g *ProgGen) nm(s string, t *ast.Ty) ast.Nm {
 		pct = 35
 	}
 	return pol(ast.N(s), g.unf(t), g.Chance(pct, "polann"))
+}
+
+// polNm: like nm, but with FwdPol the polarity is always written (drop, split and fwd are carried
+// out by forwards, which need it when the program runs unchecked).
+func (g *ProgGen) polNm(s string, t *ast.Ty) ast.Nm {
+	if g.FwdPol {
+		return pol(ast.N(s), g.unf(t), true)
+	}
+	return g.nm(s, t)
 }
 
 func (g *ProgGen) self(t *ast.Ty) ast.Nm {
@@ -265,7 +275,11 @@ func (g *ProgGen) Term(ctx []Var, A *ast.Ty) *ast.Term {
 	a := g.unf(A)
 	if len(ctx) == 1 && g.Env.Equal(ctx[0].T, A) && g.Likely(40, "fwd") {
 		g.feat("fwd")
-		return &ast.Term{Kind: ast.TFwd, X: g.self(A), Y: g.nm(ctx[0].N, ctx[0].T)}
+		y := g.nm(ctx[0].N, ctx[0].T)
+		if g.FwdPol {
+			y = pol(ast.N(ctx[0].N), g.unf(ctx[0].T), true)
+		}
+		return &ast.Term{Kind: ast.TFwd, X: g.self(A), Y: y}
 	}
 	if g.budget > 0 && g.Chance(8, "tailcall") {
 		// hand everything to a new function: f(ctx) or f(self, ctx); a callee that is handed the
@@ -462,7 +476,7 @@ func (g *ProgGen) elim(ctx []Var, A *ast.Ty) *ast.Term {
 	xt := g.unf(x.T)
 	if x.T.M.W() && g.Chance(18, "drop") {
 		g.feat("drop")
-		return &ast.Term{Kind: ast.TDrop, X: g.nm(x.N, x.T), K: g.Term(rest, A)}
+		return &ast.Term{Kind: ast.TDrop, X: g.polNm(x.N, x.T), K: g.Term(rest, A)}
 	}
 	if x.T.M.C() && g.budget > 0 && g.Chance(18, "split") {
 		g.feat("split")
@@ -476,7 +490,7 @@ func (g *ProgGen) elim(ctx []Var, A *ast.Ty) *ast.Term {
 			}
 			g.feat("rebinds-consumed-name")
 		}
-		return &ast.Term{Kind: ast.TSplit, X: ast.N(a), Y: ast.N(b), Z: g.nm(x.N, x.T), K: g.Term(append(rest, Var{a, x.T}, Var{b, x.T}), A)}
+		return &ast.Term{Kind: ast.TSplit, X: ast.N(a), Y: ast.N(b), Z: g.polNm(x.N, x.T), K: g.Term(append(rest, Var{a, x.T}, Var{b, x.T}), A)}
 	}
 	switch xt.K {
 	case ast.KOne:
@@ -536,10 +550,6 @@ func (g *ProgGen) elim(ctx []Var, A *ast.Ty) *ast.Term {
 			pre = append(pre, c1)
 		}
 		n := g.fresh("r")
-		if g.Chance(15, "rebind") {
-			n = x.N // x : B <- new send x<b, self>
-			g.feat("axiom-cut-reuses-name")
-		}
 		cut := &ast.Term{Kind: ast.TNew, X: ast.N(n), Ann: g.ann(xt.R), Body: &ast.Term{Kind: ast.TSend, X: g.nm(x.N, x.T), Y: g.nm(b, xt.L), Z: ast.SelfNm}}
 		pre = append(pre, cut)
 		return seq(pre, g.Term(append(rest, Var{n, xt.R}), A))
@@ -547,10 +557,6 @@ func (g *ProgGen) elim(ctx []Var, A *ast.Ty) *ast.Term {
 		g.feat("withL")
 		br := xt.Brs[g.Pick(len(xt.Brs), "withbr")]
 		n := g.fresh("r")
-		if g.Chance(15, "rebind") {
-			n = x.N // x : A <- new x.l<self>
-			g.feat("axiom-cut-reuses-name")
-		}
 		cut := &ast.Term{Kind: ast.TNew, X: ast.N(n), Ann: g.ann(br.T), Body: &ast.Term{Kind: ast.TSel, X: g.nm(x.N, x.T), Label: br.L, Y: ast.SelfNm}}
 		cut.K = g.Term(append(rest, Var{n, br.T}), A)
 		return cut
@@ -558,17 +564,13 @@ func (g *ProgGen) elim(ctx []Var, A *ast.Ty) *ast.Term {
 		if ast.Geq(xt.L.M, am) {
 			g.feat("upL")
 			n := g.fresh("r")
-			if g.Chance(15, "rebind") {
-				n = x.N // x : A <- new cast x<self>
-				g.feat("axiom-cut-reuses-name")
-			}
 			cut := &ast.Term{Kind: ast.TNew, X: ast.N(n), Ann: g.ann(xt.L), Body: &ast.Term{Kind: ast.TCast, X: g.nm(x.N, x.T), Y: ast.SelfNm}}
 			cut.K = g.Term(append(rest, Var{n, xt.L}), A)
 			return cut
 		}
 		if x.T.M.W() {
 			g.feat("drop")
-			return &ast.Term{Kind: ast.TDrop, X: g.nm(x.N, x.T), K: g.Term(rest, A)}
+			return &ast.Term{Kind: ast.TDrop, X: g.polNm(x.N, x.T), K: g.Term(rest, A)}
 		}
 		g.feat("dead-end-upshift")
 		g.dead = true
